@@ -13,7 +13,6 @@ import (
 	"archive/zip"
 	"bytes"
 	"fmt"
-	"hash/fnv"
 	"math/rand"
 	"strings"
 )
@@ -99,7 +98,8 @@ var xmlinAttrs = map[string][][2]string{
 	"unknown": {{"w:val", "u"}}, "align": {}, "posOffset": {},
 }
 
-var xmlinBadVals = []string{"", "abc", "-1", "0", "70000", "2147483648", "1.5", "００１", " 12 ", "0x10"}
+// values of the unusual attribute classes (every attribute of the element gets the value)
+var xmlinAttrVal = map[string]string{"word": "abc", "neg": "-1", "big": "5000", "huge": "2147483648"}
 
 type xmlinRender struct {
 	w       fgnW   // spelling of names in the main namespace
@@ -107,12 +107,6 @@ type xmlinRender struct {
 	noNs    bool   // no namespace declarations at all
 	seed    int64
 	mixedAt string // element below which the strict namespace is re-declared
-}
-
-func xmlinHash(s string, seed int64) int {
-	h := fnv.New32a()
-	fmt.Fprintf(h, "%s/%d", s, seed)
-	return int(h.Sum32() & 0x7fffffff)
 }
 
 func (r *xmlinRender) qname(n string) string {
@@ -152,10 +146,14 @@ func (r *xmlinRender) attrs(t xmlinTok, pos int) string {
 		return ""
 	}
 	var sb strings.Builder
-	for i, kv := range xmlinAttrs[t.N] {
+	for _, kv := range xmlinAttrs[t.N] {
 		v := kv[1]
-		if t.A == "bad" && !strings.HasPrefix(kv[0], "xml:") {
-			v = xmlinBadVals[xmlinHash(fmt.Sprintf("%s.%d.%d", t.N, i, pos), r.seed)%len(xmlinBadVals)]
+		if t.A != "ok" && !strings.HasPrefix(kv[0], "xml:") {
+			bad, ok := xmlinAttrVal[t.A]
+			if !ok {
+				panic("xmlin: unknown attribute class " + t.A)
+			}
+			v = bad
 		}
 		fmt.Fprintf(&sb, ` %s="%s"`, r.attrName(kv[0]), fgnEsc(v))
 	}
